@@ -24,10 +24,12 @@ _CLS = ("IterationFilter", "IterationIndexFilter", "RankFilter", "TimeRangeFilte
         "CompositeFilter", "MemCopyEventFilter")
 FLOORS = {"quick": dict({"distinct_nontrivial": 100, "applications": 4000, "proper_subset_results": 1500, "decoded_name_filters": 150,
                          "time_range_boundary_hits": 50, "laws_checked": 1000, "frames_with_repeated_index_labels": 200,
-                         "reused_filter_applications": 3000, "reused_filter_after_table_growth": 200}, **{f"purity[{c}].post": 100 for c in _CLS}),
+                         "reused_filter_applications": 3000, "reused_filter_after_table_growth": 200,
+                         "traces_with_stream_0": 50, "frames_with_stale_end_column": 500}, **{f"purity[{c}].post": 100 for c in _CLS}),
           "thorough": dict({"distinct_nontrivial": 2500, "applications": 100000, "proper_subset_results": 35000, "decoded_name_filters": 3500,
                             "time_range_boundary_hits": 1200, "laws_checked": 25000, "frames_with_repeated_index_labels": 3000,
-                            "reused_filter_applications": 40000, "reused_filter_after_table_growth": 2500}, **{f"purity[{c}].post": 2500 for c in _CLS})}
+                            "reused_filter_applications": 40000, "reused_filter_after_table_growth": 2500,
+                            "traces_with_stream_0": 700, "frames_with_stale_end_column": 7000}, **{f"purity[{c}].post": 2500 for c in _CLS})}
 N_APPS = 36
 
 
@@ -51,7 +53,8 @@ def gen_case(rnd, tier: str, i: Any) -> Dict[str, Any]:
                         and "backward" not in e["name"] and rnd.random() < 0.12:
                     e["name"] = rnd.choice(["Event Sync barrier", "Context Sync check", "Event Synchronize", "my Event Sync", "Context Sync"[:-1]])
         files[f"rank{r}.json"] = tr
-    return {"files": files, "app_seed": rnd.randrange(10 ** 9), "inc_last": rnd.random() < 0.5, "reuse": True}
+    return {"files": files, "app_seed": rnd.randrange(10 ** 9), "inc_last": rnd.random() < 0.5, "reuse": True,
+            "stream0": rnd.random() < 0.3}
 
 
 # ------------------------------------------------------------------ filter specs -> (real filter, predicate over row dicts)
@@ -291,6 +294,23 @@ def run_case(case: Dict[str, Any], ctx: Any) -> core.CaseResult:
         if why:
             res.discarded, res.discard_reason = True, "not well-formed: " + why.split(":")[0][:50]
             return res
+    if case.get("stream0"):
+        # after the regime check (which keeps device activities off stream 0 for the iteration / link rules of other
+        # properties): one stream of every rank becomes the legacy default stream 0
+        import copy
+        files = copy.deepcopy(case["files"])
+        for tr in files.values():
+            ss = sorted({e["args"]["stream"] for e in tr["traceEvents"] if isinstance(e, dict) and isinstance(e.get("args"), dict)
+                         and isinstance(e["args"].get("stream"), int) and e["args"]["stream"] > 0})
+            if ss:
+                s0 = ss[case["app_seed"] % len(ss)]
+                for e in tr["traceEvents"]:
+                    if isinstance(e, dict) and isinstance(e.get("args"), dict) and e["args"].get("stream") == s0:
+                        e["args"]["stream"] = 0
+                        if e.get("tid") == s0:
+                            e["tid"] = 0
+        case = dict(case, files=files)
+        res.counters["traces_with_stream_0"] += 1
     d = ctx.scratch.new("c18")
     try:
         import pandas as pd
@@ -308,7 +328,8 @@ def run_case(case: Dict[str, Any], ctx: Any) -> core.CaseResult:
         for app in range(N_APPS):
             r = rnd.choice(ranks)
             base = t.get_trace(r)
-            kind = rnd.choice(["encoded", "encoded", "decoded_cols", "decoded_inplace", "rank_col", "rank_col_dup_index", "no_iteration", "empty"])
+            kind = rnd.choice(["encoded", "encoded", "decoded_cols", "decoded_inplace", "rank_col", "rank_col_dup_index", "no_iteration", "empty",
+                               "no_end", "rebased"])
             if kind == "encoded":
                 df = base.copy()
             elif kind == "decoded_cols":
@@ -331,6 +352,12 @@ def run_case(case: Dict[str, Any], ctx: Any) -> core.CaseResult:
                     st.decode_df(df, create_new_columns=True)
             elif kind == "no_iteration":
                 df = base.drop(columns=["iteration"]).copy()
+            elif kind == "no_end":
+                df = base.drop(columns=["end"]).copy()              # a column projection: filters work on ts and dur
+            elif kind == "rebased":
+                df = base.copy()
+                df["ts"] = df["ts"] - df["ts"].min() + 5            # the caller re-based the time stamps; 'end' is now stale
+                res.counters["frames_with_stale_end_column"] += 1
             else:
                 df = base.iloc[0:0].copy()
             if len(df) == 0 and kind != "empty":
@@ -342,11 +369,11 @@ def run_case(case: Dict[str, Any], ctx: Any) -> core.CaseResult:
                     break
             sym = st.get_sym_table()
             df["_uid"] = range(len(df))          # harness row identity (filters ignore unknown columns); labels may repeat
-            info = {"kind": {"no_iteration": "encoded", "empty": "encoded", "rank_col_dup_index": "rank_col"}.get(kind, kind), "string_name_col": name_col, "n_ranks": len(ranks),
+            info = {"kind": {"no_iteration": "encoded", "empty": "encoded", "rank_col_dup_index": "rank_col", "no_end": "encoded", "rebased": "encoded"}.get(kind, kind), "string_name_col": name_col, "n_ranks": len(ranks),
                     "iterations": sorted({int(x) for x in df["iteration"].tolist() if x >= 0}) if "iteration" in df.columns else [],
                     "starts": [int(x) for x in df["ts"].tolist()] or [0], "ends": [int(a + b) for a, b in zip(df["ts"].tolist(), df["dur"].tolist())] or [0],
                     "names": sorted({sym[x] if isinstance(x, int) else x for x in df["name"].tolist()}) or ["x"],
-                    "pass_table": kind != "decoded_inplace" and rnd.random() < (0.8 if kind in ("encoded", "no_iteration", "empty") else 0.4)}
+                    "pass_table": kind != "decoded_inplace" and rnd.random() < (0.8 if kind in ("encoded", "no_iteration", "empty", "no_end", "rebased") else 0.4)}
             n_f = rnd.choice([1, 1, 1, 2, 3, 4])
             specs = [random_spec(rnd, info) for _ in range(n_f)]
             built = [build(s, tf, st, info) for s in specs]
